@@ -136,5 +136,56 @@ let () =
         Printf.printf "OUT PIPE %s r=%s\n" id r;
         Printf.printf "DEN PIPE %s %s\n" id (String.concat ";" (List.sort_uniq compare (List.map str_c (den t))))
       end
+      else if String.length line > 6 && String.sub line 0 6 = "IN HO " then begin
+        match String.split_on_char ' ' line with
+        | [_; _; id; kind; chan; ncons; sch] ->
+          let k = (match kind with "SP" -> HSplit | "ES" -> HEnsure | _ -> HTuple) in
+          let nc = int_of_string ncons in
+          let c = (match chan with
+              | "V" -> CVal (ns [1; 2]) | "E" -> CErr (n_of_int 105) | _ -> CStopped) in
+          let sched = List.map (fun s -> nat_of_int (int_of_string s)) (split_on ',' sch) in
+          let (sites, (g, _)) = h_trace k c sched (h_init k, h_locals) [] in
+          (* what consumer i (1-based) of this adaptor kind receives when the stored completion is delivered *)
+          let project i (e : ev) : string =
+            match e with
+            | Abort -> "abort"
+            | Sig (CVal vs) when k = HTuple ->
+              (match List.nth_opt vs (i - 1) with Some v -> "V:" ^ str_vals [v] | None -> "V:")
+            | Sig c0 -> str_c c0 in
+          let log = List.rev g.h_log in   (* oldest first *)
+          let per = List.init nc (fun j ->
+              let i = j + 1 in
+              let es = List.filter (fun ((cn, _), _) -> int_of_nat cn = i) log in
+              match es with
+              | [] -> "0:-:-1"
+              | ((_, by), e) :: _ -> Printf.sprintf "%d:%s:%d" (List.length es) (project i e) (int_of_nat by)) in
+          let order = List.map (fun ((cn, _), _) -> string_of_int (int_of_nat cn)) log in
+          Printf.printf "OUT HO %s sites=%s sig=%s order=%s led=0\n" id
+            (let l = List.map (fun s -> string_of_int (int_of_nat s)) sites in if l = [] then "-" else String.concat "," l)
+            (if per = [] then "-" else String.concat "|" per)
+            (if order = [] then "-" else String.concat "," order)
+        | _ -> ()
+      end
+      else if String.length line > 6 && String.sub line 0 6 = "IN JN " then begin
+        match String.split_on_char ' ' line with
+        | [_; _; id; _kind; n; comps; sch] ->
+          let n = int_of_string n in
+          let cs (t : nat) : completion =
+            let i = int_of_nat t in
+            if i >= n then CStopped else
+            match comps.[i] with
+            | 'V' -> CVal (ns [10 * i + 1]) | 'E' -> CErr (n_of_int (100 + i)) | _ -> CStopped in
+          let sched = List.map (fun s -> nat_of_int (int_of_string s)) (split_on ',' sch) in
+          let nn = nat_of_int n in
+          let (sites, (g, _)) = w_trace nn cs sched (w_init nn, w_locals) [] in
+          let out = List.rev g.w_out in
+          let (r, by) = (match out with
+              | [] -> ("-", -1)
+              | (t, e) :: _ -> ((match e with Abort -> "abort" | Sig c0 -> str_c c0), int_of_nat t)) in
+          Printf.printf "OUT JN %s sites=%s n=%d r=%s by=%d led=0\n" id
+            (let l = List.map (fun s -> string_of_int (int_of_nat s)) sites in if l = [] then "-" else String.concat "," l)
+            (List.length out) r by
+        | _ -> ()
+      end
     done
   with End_of_file -> ()
